@@ -228,6 +228,24 @@ def universal_numq_count(f, neg=False):
     return False
 
 
+def universal_numq(f, neg=False):
+    """some numeric quantifier is universal in negation normal form (with or without count)"""
+    k = f[0]
+    if k == "not":
+        return universal_numq(f[1], not neg)
+    if k in ("and", "or"):
+        return any(universal_numq(x, neg) for x in f[1:])
+    if k == "implies":
+        return universal_numq(f[1], not neg) or universal_numq(f[2], neg)
+    if k in ("iff", "xor"):
+        return any(x[0] in ("forallint", "existsint") for a in f[1:] for x in fml.walk(a))
+    if k in ("forall", "exists"):
+        return universal_numq(f[5], neg)
+    if k in ("forallint", "existsint"):
+        return ((k == "forallint") != neg) or universal_numq(f[2], neg)
+    return False
+
+
 def judge(case):
     g, f = case["grammar"], case["formula"]
     start = case.get("start_symbol")
@@ -290,6 +308,8 @@ def judge(case):
                 root_cause = ":negated_count"
             elif universal_numq_count(f):
                 root_cause = ":universal_numq_count"
+            elif universal_numq(f):
+                root_cause = ":universal_numq"
             elif start and start in rt.reach(cg).get(start, set()) and any(x[0] in ("forall", "exists") and x[1] == start for x in fml.walk(f)):
                 # open finding: a quantifier over the requested, recursive start symbol itself
                 root_cause = ":quantifier_over_recursive_requested_start_symbol"
